@@ -77,9 +77,10 @@ def build(cfg):
     elif cfg["bounds"] == "end":
         kw["end"] = idx[-3]
     if cfg["folds"] == "two":
-        kw["folds"] = {"training-set": [idx[0].to_pydatetime(), idx[8].to_pydatetime()],
-                       "test-set": [idx[9].to_pydatetime(), idx[-1].to_pydatetime()]}
-    env = TradingEnvXY(X.copy(), Y.copy(), transformer=cfg["transformer"], transformer_end=idx[7], window=cfg["window"],
+        cut = 8 if len(idx) <= 16 else (2 * len(idx)) // 3
+        kw["folds"] = {"training-set": [idx[0].to_pydatetime(), idx[cut].to_pydatetime()],
+                       "test-set": [idx[cut + 1].to_pydatetime(), idx[-1].to_pydatetime()]}
+    env = TradingEnvXY(X.copy(), Y.copy(), transformer=cfg["transformer"], transformer_end=idx[7 if len(idx) <= 16 else len(idx) // 2], window=cfg["window"],
                        stride=cfg["stride"], clip=cfg["clip"], spread=cfg["spread"], rate=rate, steps_delay=cfg["delay"], **kw)
     return env, X, Y, rate, idx
 
@@ -219,13 +220,16 @@ def configs(tier):
             cfg = dict(dev)
             cfg["window"], cfg["stride"] = w, s
             yield cfg
-    if tier == "thorough":
-        for w in (5, 8, 13, 21, 30):
-            for s in (None, 2, 7):
-                for tname in (None, "z-score"):
-                    cfg = {n: a[0] for n, a in MENUS}
-                    cfg.update({"window": w, "stride": s, "transformer": tname, "ndays": 70})
-                    yield cfg
+    # long windows (the statement quantifies over window 1..30), also resetting into a later fold,
+    # where the warm-up horizon - not the first timestep's history - must supply the whole window
+    big = [(7, None), (7, 3), (9, 8), (12, 4)] if tier == "quick" else \
+        [(w, s) for w in (5, 7, 8, 9, 12, 13, 20, 21, 30) for s in (None, 2, 3, 4, 7, 8)]
+    for w, s in big:
+        for folds in (None, "two"):
+            for tname in ((None,) if tier == "quick" else (None, "z-score")):
+                cfg = {n: a[0] for n, a in MENUS}
+                cfg.update({"window": w, "stride": s, "transformer": tname, "ndays": 60 if tier == "quick" else 90, "folds": folds})
+                yield cfg
 
 
 def _work(chunk):
